@@ -89,17 +89,18 @@ type Own struct {
 	Funcs   []*ssa.Function
 	inFuncs map[*ssa.Function]bool
 
-	cls        map[ssa.Value]Class
-	why        map[ssa.Value]string
-	pts        map[ssa.Value]locset
-	content    map[loc]Class
-	contentWhy map[loc]string
-	contentPts map[loc]locset
-	retCls     map[*ssa.Function][]Class
-	retPts     map[*ssa.Function][]locset
-	closureOf  map[*ssa.Function]*ssa.MakeClosure
-	escapedFn  map[*ssa.Function]bool // function value used other than as a callee
-	changed    bool
+	cls         map[ssa.Value]Class
+	why         map[ssa.Value]string
+	pts         map[ssa.Value]locset
+	content     map[loc]Class
+	contentWhy  map[loc]string
+	contentPts  map[loc]locset
+	globalReach map[loc]*ssa.Global // cache of keptInGlobal, dropped when contentPts grows
+	retCls      map[*ssa.Function][]Class
+	retPts      map[*ssa.Function][]locset
+	closureOf   map[*ssa.Function]*ssa.MakeClosure
+	escapedFn   map[*ssa.Function]bool // function value used other than as a callee
+	changed     bool
 
 	own2 *own2state
 
@@ -227,6 +228,7 @@ func (o *Own) addContent(l loc, c Class, why string, ps locset) {
 			if _, ok := cur[p]; !ok {
 				cur[p] = struct{}{}
 				o.changed = true
+				o.globalReach = nil // reachability from package variables has to be recomputed
 			}
 		}
 	}
@@ -247,10 +249,56 @@ func (o *Own) loadFrom(v ssa.Value, ls locset, fallback string) {
 				// never-assigned (in the analysed code) field or global holding storage: not provably fresh
 				c = Unknown
 			}
-			o.setCls(v, c, o.descLoc(l))
+			why := o.descLoc(l)
+			if _, isSlice := v.Type().Underlying().(*types.Slice); isSlice && c == Fresh {
+				if g := o.keptInGlobal(l); g != nil {
+					// a slice kept in (a container reachable from) a package variable outlives the call that made
+					// it and is seen by every later caller: it is not this caller's own storage
+					c = Unknown
+					why = "kept in package variable " + g.Name() + " (shared by every caller)"
+				}
+			}
+			o.setCls(v, c, why)
 		}
 		o.addPts(v, o.contentPts[l])
 	}
+}
+
+// keptInGlobal: l is a package variable or a container reachable from one (through what is stored into it).
+func (o *Own) keptInGlobal(l loc) *ssa.Global {
+	if l.kind == lkGlobal {
+		g, _ := l.v.(*ssa.Global)
+		return g
+	}
+	if o.globalReach == nil {
+		o.globalReach = map[loc]*ssa.Global{}
+		for gl := range o.contentPts {
+			if gl.kind != lkGlobal {
+				continue
+			}
+			g, _ := gl.v.(*ssa.Global)
+			if g == nil {
+				continue
+			}
+			seen := map[loc]bool{}
+			work := []loc{gl}
+			for len(work) > 0 {
+				x := work[len(work)-1]
+				work = work[:len(work)-1]
+				if seen[x] {
+					continue
+				}
+				seen[x] = true
+				if cur, ok := o.globalReach[x]; !ok || g.Pos() < cur.Pos() {
+					o.globalReach[x] = g
+				}
+				for y := range o.contentPts[x] {
+					work = append(work, y)
+				}
+			}
+		}
+	}
+	return o.globalReach[l]
 }
 
 func (o *Own) descLoc(l loc) string {
@@ -581,7 +629,14 @@ func (o *Own) lookup(v ssa.Value, m ssa.Value) {
 		if isSliceOrMap(v.Type()) {
 			c := o.content[l]
 			if c != Bot {
-				o.setCls(v, c, "element of "+m.Name()+" ("+o.contentWhy[l]+")")
+				why := "element of " + m.Name() + " (" + o.contentWhy[l] + ")"
+				if _, isSlice := v.Type().Underlying().(*types.Slice); isSlice && c == Fresh {
+					if g := o.keptInGlobal(l); g != nil {
+						c = Unknown
+						why = "kept in package variable " + g.Name() + " (shared by every caller)"
+					}
+				}
+				o.setCls(v, c, why)
 			}
 		}
 		o.addPts(v, o.contentPts[l])
